@@ -1,8 +1,10 @@
 // TRUSTED PRELUDE — unit `analysis`: A-DISPATCH. `#[enum_dispatch]` forwards `op.get_match_length()` etc. to the
 // method of the variant's struct; every such method is verified in this unit against the same specification
 // (`match_len`, `min_len`), so the forwarding stub below is sound by induction on the height of the tree.
-// The default methods of the trait (operation.rs: get_match_length = None, get_minimum_match_length =
-// get_match_length().unwrap_or(0)) are mirrored by the `_ =>` arms of the specifications.
+// Where a variant's struct does not define a method, what runs is the default method of the trait (operation.rs:
+// get_match_length = None, get_minimum_match_length = get_match_length().unwrap_or(0), contains_capturing_expressions =
+// false); those bodies are extracted from the trait and verified for each variant that inherits them (directive
+// `default operation.rs :: OperationControl`), against specifications that state the leaves explicitly.
 impl Operation {
     #[verifier::external_body]
     pub fn get_match_length(&self) -> (r: Option<usize>)
